@@ -84,7 +84,16 @@ func (wtr *XMLWtr) container(lvl int) node.Node {
 		return wtr.container(lvl + 1), nil
 	}
 	s.OnBeginEdit = func(r node.NodeRequest) error {
-		if !meta.IsLeaf(r.Selection.Meta()) && !r.Selection.InsideList && !meta.IsList(r.Selection.Meta()) {
+		if lvl == 0 && first && !meta.IsLeaf(r.Selection.Meta()) {
+			// the document starts with the element of the selection it is written from: a container,
+			// a list item, or for a whole list one element that holds the items
+			ns := wtr.getXmlns(r.Selection.Path)
+			ident := wtr.ident(r.Selection.Path) + " xmlns=" + "\"" + ns + "\""
+			if err := wtr.beginContainer(ident); err != nil {
+				return err
+			}
+			first = false
+		} else if !meta.IsLeaf(r.Selection.Meta()) && !r.Selection.InsideList && !meta.IsList(r.Selection.Meta()) {
 			if lvl == 0 && first {
 				ns := wtr.getXmlns(r.Selection.Path)
 				ident := wtr.ident(r.Selection.Path) + " xmlns=" + "\"" + ns + "\""
